@@ -574,7 +574,8 @@ func TestProp(t *testing.T) {
 			"intermediate vertices given in either direction, speeds in [0.1,100]; both Distance and Time; query points near nodes or anywhere. Oracle: Dijkstra on a reference graph; the " +
 			"returned pieces must be input links forming a walk from a nearest node of the start point to a nearest node of the end point, reported totals = sums over the chain, " +
 			"start/endDistance = distances to those nodes, chain cost = Dijkstra optimum (1e-9), empty iff same node or disconnected. Non-trivial = the optimal chain has more links " +
-			"than the fewest-links chain between the same nodes. Distinct by case hash.",
+			"than the fewest-links chain between the same nodes. Distinct by case hash." +
+			" Round 10: 'trap' networks (1 eligible case in 8): moved 1e8 along x only, two more nodes and links so that a link end lies within tolerance of a node that is not its nearest.",
 		Assumptions: []string{"ties for the nearest node are resolved by accepting any nearest node"},
 		Gen:         gen,
 		Run:         run,
